@@ -18,6 +18,7 @@ mod o_parsers;
 mod o_arith;
 mod o_mgu;
 mod o_contexts;
+mod o_trusted;
 
 use std::panic;
 
@@ -47,6 +48,7 @@ fn oracles() -> Vec<(&'static str, Enumerate, Check)> {
         ("c10_rename", o_rename::enum_rename, o_rename::check_rename),
         ("c10_clause", o_rename::enum_clause, o_rename::check_clause),
         ("c21_load", o_reader::enum_load, o_reader::check_load),
+        ("trusted_std", o_trusted::enum_audits, o_trusted::check_audit),
         ("c18_parsers", o_parsers::enum_strings, o_parsers::check_string),
         ("c19_roundtrip", o_parsers::enum_roundtrip, o_parsers::check_roundtrip),
         ("c19_random", o_parsers::enum_random_rules, o_parsers::check_roundtrip),
